@@ -168,7 +168,7 @@ for n in [0, 1, 3, 63, 64]:
         "Vec<u8> and byte_vec round trip, identical bytes from both codecs, 1- vs 2-byte header at the 63/64 boundary",
         "%d symbolic content bytes" % n, "length %d (concrete)" % n, n + 4)
 C12("c12_roundtrip_vec_option_u16", "thorough", "Vec<Option<u16>> round trip with symbolic presence (symbolic byte length)",
-    "3 entries, presence and values symbolic", "3 entries", 12)
+    "2 entries, presence and values symbolic", "2 entries (3 entries: 19 GB, out of memory)", 12)
 C12("c12_roundtrip_vec_vec_u8", "quick", "Vec<Vec<u8>> round trip", "inner contents symbolic", "2 inner vectors (2, 0 bytes)", 10)
 
 CLAIMS["C20"] = dict(
@@ -209,7 +209,8 @@ H("c12w_roundtrip_sender_data", _W, ["C12", "C03"], "quick", what="SenderData ro
 
 # ------------------------------------------------------------------------------------------- C10
 OUTSIDE["C10"] = ("every rule that needs the tree, key packages, credentials, PSK stores or capabilities; the composed "
-                  "filter chain on multi-proposal bundles (did not terminate: probe P32); receivers with different caches; "
+                  "filter chain on multi-proposal bundles (did not terminate: probe P32); bundles of more than two proposals "
+                  "(Vec::retain over ProposalInfo costs 5-13 GB already at two); Add proposals; receivers with different caches; "
                   "committer/receiver agreement end to end")
 _T = ("proposer_can_propose(sender, type, source) equals the table transcribed from RFC 9420 §12 / §17.4 "
       "(+ the documented Local rule) for EVERY u16 proposal type and sender index")
@@ -226,6 +227,42 @@ H("c10_table_newmemberproposal_local", "c10_rules.rs", ["C10"], "quick", what=_T
 H("c10_apply_strategy", "c10_rules.rs", ["C10"], "quick",
   what="one rule set, two strategies: Send drops exactly the by-reference offenders, Receive rejects every offender with the "
        "original error, valid proposals are kept under both", symbolic="direction, by_ref, validity (all 8 combinations)", bounds="exhaustive")
+_F = ("RFC 9420 section 12.2 rule '%s' (proposal_filter::filtering::%s) on a small bundle under BOTH strategies: receiving rejects "
+      "iff the bundle holds an offender (with the rule's error); sending errors on a by-value/local offender, silently drops a "
+      "by-reference offender and keeps everything else; what the sender's filter keeps is accepted unchanged by the receiver's")
+H("c10f_removal_of_committer_one", "c10_filters.rs", ["C10"], "quick", unwind=4, mem="H",
+  what=_F % ("a Remove that removes the committer", "filter_out_removal_of_committer"),
+  symbolic="committer index, removed index, proposer index (any u32), source (by value / by reference / local)", bounds="one Remove proposal")
+H("c10f_removal_of_committer_two", "c10_filters.rs", ["C10"], "thorough", unwind=5, mem="X",
+  what=_F % ("a Remove that removes the committer", "filter_out_removal_of_committer") + "; the innocent second removal survives",
+  symbolic="committer index, removed index, proposer index (any u32), source of the first", bounds="two Remove proposals (second by value, never the committer)")
+H("c10f_update_for_committer", "c10_filters.rs", ["C10"], "quick", unwind=4, mem="M",
+  what=_F % ("an Update generated by the committer", "filter_out_update_for_committer"),
+  symbolic="committer index, proposer index (any u32), proposer kind (member/external), source", bounds="one Update proposal, concrete 1-byte leaf keys")
+H("c10f_group_context_extensions_twice", "c10_filters.rs", ["C10"], "thorough", unwind=5, mem="X",
+  what=_F % ("multiple GroupContextExtensions proposals", "filter_out_extra_group_context_extensions") + "; the first in bundle order is the one kept",
+  symbolic="one or two proposals, source of each (9 combinations)", bounds="at most two GCE proposals, empty extension lists")
+H("c10f_reinit_version", "c10_filters.rs", ["C10"], "quick", unwind=4, mem="M",
+  what=_F % ("ReInit must not lower the protocol version", "filter_out_invalid_reinit"),
+  symbolic="group version, proposed version (any u16), proposer index, source", bounds="one ReInit proposal")
+H("c10f_reinit_with_other", "c10_filters.rs", ["C10"], "quick", unwind=5, mem="H",
+  what=_F % ("a ReInit together with any other proposal", "filter_out_reinit_if_other_proposals"),
+  symbolic="source of the ReInit, presence of a second proposal", bounds="one ReInit and at most one by-value Remove")
+H("c10f_two_reinits", "c10_filters.rs", ["C10"], "quick", unwind=5, mem="L",
+  what="two by-reference ReInit proposals and nothing else: receiving rejects, sending keeps exactly the first",
+  symbolic="none (concrete bundle; the solver covers every path of the real code for it)", bounds="two ReInit proposals")
+H("c10f_external_init_in_member_commit", "c10_filters.rs", ["C10"], "quick", unwind=4, mem="L",
+  what=_F % ("an ExternalInit in a member's commit", "filter_out_external_init"),
+  symbolic="proposer index, source", bounds="one ExternalInit proposal")
+_P = ("path requirement (RFC 9420 section 12.4; proposal_filter::path_update_required, the one function both sides call on the applied "
+      "bundle): required iff the bundle is empty or holds a non-local Update / Remove / ExternalInit / GroupContextExtensions")
+for name, unsat, b in [("empty", ["path optional"], "empty bundle"), ("update", [], "one Update"), ("remove", [], "one Remove"),
+                       ("psk", ["path required"], "one PreSharedKey"), ("reinit", ["path required"], "one ReInit"),
+                       ("external_init", [], "one ExternalInit"), ("gce", [], "one GroupContextExtensions"),
+                       ("psk_only_pair", ["path required"], "one by-value PreSharedKey"), ("update_and_psk", [], "Update + by-value PreSharedKey"),
+                       ("remove_and_psk", [], "Remove + by-value PreSharedKey"), ("gce_and_psk", [], "GroupContextExtensions + by-value PreSharedKey")]:
+    H("c10f_path_" + name, "c10_filters.rs", ["C10"], "quick", unwind=5, mem="L", what=_P,
+      symbolic="source of the proposal (by value / by reference / local), proposer and removed index", bounds=b, expect_unsat=unsat)
 
 # ------------------------------------------------------------------------------------- C02 / C08
 OUTSIDE["C02"] = ("who can follow the group after a removal (needs encap/decap: resolution wall, probes P14/P15); HPKE "
@@ -389,8 +426,10 @@ for pl in ["cipher_application", "cipher_proposal", "cipher_commit", "plain_appl
           expect_unsat=unsat, role="c16_check_metadata_" + pl)
 
 CLAIMS["C10"] = dict(text="Bounded model checking of the proposer rule table (every sender kind x source x u16 proposal type) against a table "
-                          "transcribed from RFC 9420, and of the two filter strategies. Only this clause of C10; agreement between committer and "
-                          "receivers on whole proposal sets is outside (see coverage.outside_bounds).", note=_NOTE)
+                          "transcribed from RFC 9420, of the two filter strategies, of each tree-independent section-12.2 rule (committer removal / update, "
+                          "second GroupContextExtensions, ReInit version, ReInit mixed with others, ExternalInit in a member commit) run on 1-2 proposal "
+                          "bundles under both strategies with sender-keeps => receiver-accepts closure, and of the path requirement. Agreement between "
+                          "committer and receivers on whole proposal sets is outside (see coverage.outside_bounds).", note=_NOTE)
 CLAIMS["C02"] = dict(text="Bounded model checking of the removal kernel (blank leaf + blank direct path) on every occupancy of a 4-leaf-slot tree, "
                           "every removed position: the removed key's slot and all its ancestors are blank, nothing else changes. The recipient "
                           "clause (HPKE only to copath resolutions) is outside.", note=_NOTE)
